@@ -38,6 +38,10 @@ type staticCase struct {
 	IDs     string `json:"ids"`
 	Cycles  int    `json:"cycles"`
 	Targets int    `json:"targets"`
+	// Typo: replica BadIn has one more entry whose url was mistyped ("noscheme": 10.255.0.1:8080, "noid": the id is
+	// missing, "badport": http://10.255.0.1:80a80); that sidecar cannot be reached, every other one is coordinated
+	Typo  string `json:"typo,omitempty"`
+	BadIn int    `json:"badIn,omitempty"`
 }
 
 func staticHost(r, j int) string { return fmt.Sprintf("r%d-s%d.static", r, j) }
@@ -58,6 +62,16 @@ func (c *staticCase) file(only int) string {
 				fmt.Fprintf(&b, "  - url: http://%s:8080\n", staticHost(r, j))
 			default:
 				fmt.Fprintf(&b, "  - id: r%d-s%d\n    url: http://%s:8080\n", r, j, staticHost(r, j))
+			}
+		}
+		if c.Typo != "" && r == c.BadIn%len(c.Shards) {
+			switch c.Typo {
+			case "noscheme":
+				fmt.Fprintf(&b, "  - id: typo-%d\n    url: 10.255.0.1:8080\n", r)
+			case "noid":
+				fmt.Fprintf(&b, "  - url: http://typo-%d.static:8080\n", r)
+			default:
+				fmt.Fprintf(&b, "  - id: typo-%d\n    url: \"http://10.255.0.1:80a80\"\n", r)
 			}
 		}
 	}
@@ -175,10 +189,14 @@ func TestC19Static(t *testing.T) {
 		for r := rapid.IntRange(1, 3).Draw(t, "replicas"); r > 0; r-- {
 			c.Shards = append(c.Shards, rapid.IntRange(1, 3).Draw(t, fmt.Sprintf("shards%d", r)))
 		}
+		if rapid.IntRange(0, 2).Draw(t, "typo") == 0 {
+			c.Typo = rapid.SampledFrom([]string{"noscheme", "noid", "badport"}).Draw(t, "typoKind")
+			c.BadIn = rapid.IntRange(0, 2).Draw(t, "badIn")
+		}
 		vkit.Begin("C19", "TestC19Static", c)
 		bad := rec.Filter(runStatic(c))
 		b, _ := json.Marshal(c)
-		rec.Eval(len(c.Shards) > 1, vkit.Digest("static", string(b)), "static/ids-"+c.IDs, fmt.Sprintf("static/replicas=%d", len(c.Shards)))
+		rec.Eval(len(c.Shards) > 1, vkit.Digest("static", string(b)), "static/ids-"+c.IDs, fmt.Sprintf("static/replicas=%d", len(c.Shards)), "static/typo="+c.Typo)
 		if len(bad) > 0 {
 			p := vkit.SaveViolation("C19", "TestC19Static", c, bad, nil)
 			t.Fatalf("%s (replay %s)", bad[0], p)
